@@ -13,7 +13,8 @@ the hand model's function for that access path does (`GetXBase`: factory calls a
 `_SO_finishCreate`; `GetXPaths`: alternate id, foreign key, iteration; `GetXModel` / `GetXInv`: the ties to
 `getObj` / `step` and the invariant; `GetXLoops`: the `CacheSet` methods that loop over all factories;
 `GetXTx`: C07's interface assumptions about the `CacheSet`; `GetXExpireAll`: `delete`, `connection.expireAll`).
-`sqlmeta.expireAll` is translated and runnable (`metaExpireAllG`), no theorem.
+`GetXOrder`: `expire()` of a set of instances is order-independent, `connection.expireAll` = the model's step;
+`GetXMeta`: `sqlmeta.expireAll`.
 
 The world: `s` — the hand model's state (rows, factories, objects); `made` — the keys of `CacheSet.caches` (the
 classes that have a `CacheFactory`; `WF`: a class without one has the empty factory in `s`); `lock c` — the lock of
